@@ -21,18 +21,29 @@ class SpecEvalError(Exception):
     pass
 
 
+class _Snap:
+    """entry-state snapshot of a receiver's attributes"""
+
+
 def _sizes(env):
     m = 0
     for v in env.values():
         try:
-            if hasattr(v, "__len__") and not isinstance(v, str):
+            if isinstance(v, _Snap) or (hasattr(v, "__dict__") and not isinstance(v, (list, tuple, dict, set, str))):
+                for av in vars(v).values():
+                    if isinstance(av, (list, tuple, dict, set)):
+                        m = max(m, len(av) + 1)
+                        for x in list(av)[:50]:
+                            if isinstance(x, (list, tuple, dict, set)):
+                                m = max(m, len(x) + 1)
+            elif isinstance(v, (list, tuple, dict, set)):
                 m = max(m, len(v))
                 for x in list(v)[:50]:
-                    if hasattr(x, "__len__") and not isinstance(x, str):
+                    if isinstance(x, (list, tuple, dict, set)):
                         m = max(m, len(x))
                     if isinstance(x, tuple):
                         for y in x:
-                            if hasattr(y, "__len__") and not isinstance(y, str):
+                            if isinstance(y, (list, tuple, dict, set)):
                                 m = max(m, len(y))
             elif isinstance(v, str):
                 m = max(m, len(v))
@@ -45,12 +56,62 @@ class _Ns(dict):
     pass
 
 
+class _Sort:
+    def __init__(self, name):
+        self.name = name
+
+
+def _atoms(env):
+    """universe for sort-typed quantifiers: every hashable atom reachable from the values in scope"""
+    out = []
+    seen = set()
+
+    def add(x, depth=0):
+        if depth > 4:
+            return
+        if isinstance(x, _Snap) or (hasattr(x, "__dict__") and not isinstance(x, (list, tuple, dict, set, str, type)) and not callable(x)):
+            for av in list(vars(x).values()):
+                if isinstance(av, (list, tuple, dict, set)):
+                    add(av, depth + 1)
+            if isinstance(x, _Snap):
+                return
+        if isinstance(x, dict):
+            for k, v in list(x.items()):
+                add(k, depth + 1)
+                add(v, depth + 1)
+            return
+        if isinstance(x, (list, tuple, set, frozenset)):
+            for y in list(x)[:200]:
+                add(y, depth + 1)
+            return
+        try:
+            if x not in seen:
+                seen.add(x)
+                out.append(x)
+        except TypeError:
+            pass
+
+    for v in env.values():
+        if not callable(v) or isinstance(v, _Snap):
+            add(v)
+    return out[:400]
+
+
 def spec_namespace(env, extra=None):
     bound = _sizes(env) + 2
+    universe = None
 
     def _range_for(lam):
-        n = len(inspect.signature(lam).parameters)
-        return itertools.product(range(-2, bound + 1), repeat=n)
+        nonlocal universe
+        doms = []
+        for p in inspect.signature(lam).parameters.values():
+            if isinstance(p.default, _Sort):
+                if universe is None:
+                    universe = _atoms(env) + [object()]
+                doms.append(universe)
+            else:
+                doms.append(range(-2, bound + 1))
+        return itertools.product(*doms)
 
     def forall(lam):
         for xs in _range_for(lam):
@@ -104,6 +165,17 @@ class _Lazify(_ast.NodeTransformer):
 
 
 @functools.lru_cache(maxsize=4096)
+def _sort_names(text):
+    out = []
+    for node in _ast.walk(_ast.parse(text.strip(), mode="eval")):
+        if isinstance(node, _ast.Lambda):
+            for d in node.args.defaults:
+                if isinstance(d, _ast.Name):
+                    out.append(d.id)
+    return tuple(out)
+
+
+@functools.lru_cache(maxsize=4096)
 def _compile(text):
     tree = _ast.parse(text.strip(), mode="eval")
     tree = _ast.fix_missing_locations(_Lazify().visit(tree))
@@ -113,7 +185,38 @@ def _compile(text):
 def eval_clause(text, env, extra=None):
     ns = spec_namespace(env, extra)
     ns["__builtins__"] = __builtins__
+    for nm in _sort_names(text):
+        ns.setdefault(nm, _Sort(nm))
     return eval(_compile(text), ns)  # single namespace: lambdas inside the clause must see it as globals
+
+
+def conforms(value, spec):
+    """Does the real argument fall inside the variant of the function that the contract models?"""
+    from .types import TBool, TDict, TInt, TReal, TSeq, TSet, TStr, Ty, parse_ty
+    from collections.abc import Mapping
+
+    if isinstance(spec, dict):
+        return True
+    ty = parse_ty(spec) if isinstance(spec, str) else spec
+    if not isinstance(ty, Ty):
+        return True
+    if ty is TStr:
+        return isinstance(value, str)
+    if ty is TInt:
+        return isinstance(value, int) and not isinstance(value, bool)
+    if ty is TBool:
+        return isinstance(value, bool)
+    if ty is TReal:
+        return isinstance(value, (int, float)) and not isinstance(value, bool)
+    if isinstance(ty, TSeq):
+        if ty.nodup:
+            return not isinstance(value, (str, Mapping))
+        return isinstance(value, (list, tuple)) and all(conforms(x, ty.elem) for x in list(value)[:20])
+    if isinstance(ty, TDict):
+        return isinstance(value, Mapping)
+    if isinstance(ty, TSet):
+        return isinstance(value, (set, frozenset))
+    return True
 
 
 # --------------------------------------------------------------------------- target resolution
@@ -210,21 +313,21 @@ class Monitor:
                 env = dict(b.arguments)
             except TypeError:
                 return fn(*args, **kwargs)
+            if not all(conforms(env[k], spec) for k, spec in c.params.items() if k in env):
+                st["other_variant"] = st.get("other_variant", 0) + 1
+                return fn(*args, **kwargs)
             for k in list(env):
-                try:
-                    env["old_" + k] = copy.copy(env[k]) if not isinstance(env[k], (str, int, float, tuple, type(None))) else env[k]
-                    if hasattr(env[k], "__dict__") and k == "self":
-                        # shallow snapshot of the receiver's mutable containers
-                        snap = copy.copy(env[k])
-                        for a, v in list(vars(env[k]).items()):
-                            if isinstance(v, (dict, list, set)):
-                                try:
-                                    object.__setattr__(snap, a, copy.copy(v))
-                                except Exception:
-                                    pass
-                        env["old_" + k] = snap
-                except Exception:
-                    env["old_" + k] = env[k]
+                v = env[k]
+                if isinstance(v, (dict, list, set)):
+                    env["old_" + k] = copy.copy(v)
+                elif hasattr(v, "__dict__") and isinstance(c.params.get(k), dict):
+                    # receiver modelled as a mutable object: snapshot its container attributes (no __getattr__ games)
+                    snap = _Snap()
+                    for a, av in list(vars(v).items()):
+                        snap.__dict__[a] = copy.copy(av) if isinstance(av, (dict, list, set)) else av
+                    env["old_" + k] = snap
+                else:
+                    env["old_" + k] = v
             try:
                 for nm, text in c.lets.items():
                     env[nm] = eval_clause(text, env, extra)
